@@ -46,3 +46,28 @@ Proof.
   unfold at_cell in Hm. apply andb_true_iff in Hm. destruct Hm as [H1 H2].
   apply Z.eqb_eq in H1. apply Z.eqb_eq in H2. apply (Hno y Hy). split; assumption.
 Qed.
+
+(* ---- the same for a table addressed by a flat index (C: out[col + ncols * row] = v) *)
+Definition final_flat (a : list (Z * Z)) (idx : Z) : Z :=
+  match find (fun x => fst x =? idx) (rev a) with Some x => snd x | None => 0 end.
+
+Lemma final_flat_some a idx v :
+  (forall x, In x a -> fst x = idx -> snd x = v) -> (exists x, In x a /\ fst x = idx) -> final_flat a idx = v.
+Proof.
+  intros Hall [x [Hin Hi]]. unfold final_flat.
+  destruct (find _ _) as [y|] eqn:F.
+  - apply find_some in F. destruct F as [Hy Hm]. apply in_rev in Hy. apply Z.eqb_eq in Hm. apply Hall; assumption.
+  - exfalso. assert (Hx : In x (rev a)) by (apply in_rev in Hin; exact Hin).
+    pose proof (find_none _ _ F x Hx) as N. cbn beta in N. rewrite Hi, Z.eqb_refl in N. discriminate.
+Qed.
+
+Lemma final_flat_none a idx : (forall x, In x a -> fst x <> idx) -> final_flat a idx = 0.
+Proof.
+  intros Hno. unfold final_flat. destruct (find _ _) as [y|] eqn:F; [|reflexivity].
+  exfalso. apply find_some in F. destruct F as [Hy Hm]. apply in_rev in Hy. apply Z.eqb_eq in Hm.
+  apply (Hno y Hy). exact Hm.
+Qed.
+
+(* col + ncols * row determines (row, col) *)
+Lemma flat_index_inj n a b c r : 0 <= a < n -> 0 <= c < n -> a + n * b = c + n * r -> a = c /\ b = r.
+Proof. intros Ha Hc E. assert (b = r) by nia. subst. lia. Qed.
